@@ -23,11 +23,11 @@ PROPERTY = "C30"
 TYPES = ["Images", "DiffractionPatterns", "PolarMeasurements", "RealSpaceLineProfiles", "ReciprocalSpaceLineProfiles",
          "MeasurementsEnsemble", "IndexedDiffractionPatterns", "Waves", "PotentialArray", "SMatrixArray"]
 AXIS_KINDS = ["scan", "positions", "thickness", "parameter", "phonons", "tilt", "atilt", "strings", "unknown", "sample",
-              "nonlinear", "wavevector", "intvalues", "realspace", "scan32", "param32", "prism", "linear"]
+              "nonlinear", "wavevector", "intvalues", "realspace", "scan32", "param32", "prism", "linear", "mixedvalues"]
 MD_KINDS = ["default", "empty", "scalars", "tuples", "lists", "nested", "npscalars", "ndarray", "unicode", "nonfinite",
             "abtem_like"]
 DTYPES = ["float32", "float64", "complex64", "complex128", "int32"]
-RULE = ("pairwise covering array over (object type x 18 ensemble-axis kinds (linear, ordinal with float/int/str/tuple "
+RULE = ("pairwise covering array over (object type x 19 ensemble-axis kinds (linear, ordinal with float/int/str/tuple "
         "values, NumPy-scalar fields, marker axes) x 0-3 ensemble axes x dtype x 11 metadata-content kinds x {directory, "
         "zip} x {eager, lazy one-member chunks, lazy single chunk} x compression level x non-finite array entries) plus "
         "seeded extras; special histories: an object with 11-12 axes, lists of 2-3 objects of different types in one "
@@ -121,7 +121,9 @@ def _metadata(kind, r):
                 "big": 12345678901234567890, "label": "intensity", "units": "arb. unit"}
     if kind == "tuples":
         return {"energy": 100e3, "adjusted_antialias_cutoff_gpts": (8, 6), "nested": ((1, 2), (3.5, 4)), "mixed": (1, "a", 2.5, None, True),
-                "empty_tuple": (), "one": (1,), "tuple_in_list": [(1, 2), (3,)], "list_in_tuple": ([1, 2], [3])}
+                "empty_tuple": (), "one": (1,), "tuple_in_list": [(1, 2), (3,)], "list_in_tuple": ([1, 2], [3]),
+                # containers behind a scalar first entry (a decoder must look at every element, not only the first)
+                "scalar_then_tuples": ("rect", (0.0, 1.5), (2.0, 3.5)), "scalar_then_mixed": (1, [2, 3], {"k": (4,)}, (5, (6,)))}
     if kind == "lists":
         return {"energy": 100e3, "l": [1, 2, 3], "ll": [[1.5, 2], [3]], "empty": [], "strs": ["a", "b"]}
     if kind == "nested":
